@@ -274,6 +274,9 @@ PROPS["C10"] = {
 }
 
 PROPS["C08"]["harnesses"] = PROPS["C08"]["harnesses"] + [MLOOP, MSUBMIT[2]]
+# (the multi-asset step loop is decided with Market::process_event replaced by a logging stand-in; what the real one does with each
+# instruction kind - route it unchanged to the addressed book - is appended below from C14's harnesses once those are defined)
+C08_ROUTING = ("c14_market_event_new_asset0_off", "c14_market_event_cancel_asset1_off", "c14_market_event_modify_asset1_off")
 PROPS["C08"]["stubs"] = PROPS["C08"]["stubs"] + ["Market::process_event -> Market::verif_log_event in market_env_step_loop_* (fixed-size log)"]
 
 PROPS["C13"]["harnesses"] = PROPS["C13"]["harnesses"] + [de("env_toggle_m2", "Env::enable_trading / disable_trading set the wrapped book's flag and change nothing else", covers=["cover.re_enabled"], timeout=600)]
@@ -447,6 +450,8 @@ PROPS["C14"] = {
                   de("market_env_step_loop_b3", "MarketEnv<2>::step loop, 3 instructions on symbolic assets", covers=["cover.cross_asset_batch_reordered"], timeout=2400, tiers=("thorough",))],
 }
 
+
+PROPS["C08"]["harnesses"] = PROPS["C08"]["harnesses"] + [dict(h, what="multi-asset step, routing link: " + h["what"]) for h in PROPS["C14"]["harnesses"] if h["name"] in C08_ROUTING]
 
 PROPS["C18"] = {
     "level": "model_checking",
